@@ -31,7 +31,7 @@ PROPERTIES = ["PharmpyProofs/C11/Properties.lean"]
 LEAN_SOURCES = ["PharmpyModel/C11/*.lean", "PharmpyProofs/C11/*.lean", "Drivers/C11.lean"]
 TIME_LIMIT = {"quick": 900, "thorough": 3000}
 CASE_CPU_LIMIT = 60
-RULE = ("four case kinds. ops (3/5): a collection of 1-6 random variables in normal / joint-normal blocks of size 1-4 "
+RULE = ("five case kinds. model (16%): a small Model (2-4 etas with exp effects on CL/V/KA/Q, one epsilon, a FOCE step; no dataset) built with Model.create, then 2-5 steps: raw mode = replace(random_variables=partition of the etas into blocks over pre-existing covariance parameters) / replace(parameters=new covariance values) / both / neither, with covariances corr*sd_i*sd_j of style mild, strong (+-15/16: pairwise fine, jointly indefinite), over (|corr| > 1) or any, so values are valid for one block structure and invalid for another; modeling mode = create_joint_distribution (with or without seeded individual estimates) / split_joint_distribution / remove_iiv / add_iiv / set every covariance of the present blocks to a given correlation. The remaining 84% as follows. ops (3/5): a collection of 1-6 random variables in normal / joint-normal blocks of size 1-4 "
         "(entries: symbols, integers, dyadic rationals, zero covariances; levels IIV/IOV/RUV) and 3-7 operations from "
         "unjoin / join (fill 0, numeric or symbolic fill, name template; rarely an empty, repeated or unknown name) / "
         "index by collection / subs (rename, swap, numeric) / + distribution (rarely a duplicate name or unknown level) / "
@@ -44,7 +44,7 @@ RULE = ("four case kinds. ops (3/5): a collection of 1-6 random variables in nor
         "triangular_root, flattened_to_symmetric. ucp (1/10): a model with bounded/unbounded thetas, omega blocks with "
         "positive/negative/zero covariances and a sigma through calculate_ucp_scale / calculate_parameters_from_ucp. "
         "non-trivial = ops: at least one operation changed the block structure; psd: n >= 2; conv/ucp: at least one "
-        "off-diagonal element. distinct = distinct case JSON")
+        "off-diagonal element; model: the block structure changed at least once. distinct = distinct case JSON")
 TRUSTED = [
     "Lean 4.33 kernel; axioms propext, Quot.sound, Classical.choice only (audited per theorem each run)",
     "hand-written model PharmpyModel/C11/Model.lean tied to random_variables.py / distributions/symbolic.py / "
@@ -68,7 +68,7 @@ LEVELS = ["IIV", "IOV", "RUV"]
 
 
 def budget(tier):
-    return int(os.environ.get("VERIF_BUDGET", 0)) or {"quick": 2500, "thorough": 50000}[tier]
+    return int(os.environ.get("VERIF_BUDGET", 0)) or {"quick": 3000, "thorough": 60000}[tier]
 
 
 # ---------------------------------------------------------------- generation
@@ -237,11 +237,84 @@ def sym_matrix(rng: random.Random, n: int, kind: str):
     return [[str(x) for x in row] for row in A]
 
 
+def _partition(rng, k):
+    idx = list(range(k))
+    rng.shuffle(idx)
+    parts, i = [], 0
+    while i < k:
+        size = min(k - i, rng.choice([1, 1, 2, 3, 4]))
+        parts.append(sorted(idx[i:i + size]))
+        i += size
+    return sorted(parts)
+
+
+def _cov_values(rng, k, sd, style):
+    """covariances C_i_j (i > j) as exact dyadic rationals: corr * sd_i * sd_j"""
+    vals = {}
+    for i in range(k):
+        for j in range(i):
+            if style == "mild":
+                c = Fraction(rng.randint(-4, 4), 16)
+            elif style == "strong":      # 0.9 / 0.9 / -0.9 style: pairwise fine, jointly indefinite for k >= 3
+                c = Fraction(rng.choice([-15, -14, 14, 15]), 16)
+            elif style == "over":        # covariance larger than the variances allow
+                c = Fraction(rng.choice([-18, 17, 18, 20]), 16)
+            else:
+                c = Fraction(rng.randint(-16, 16), 16)
+            vals[f"C_{i}_{j}"] = str(c * Fraction(sd[i]) * Fraction(sd[j]))
+    return vals
+
+
+def gen_model_case(rng: random.Random, seed):
+    k = rng.randint(2, 4)
+    sd = [str(Fraction(rng.choice([2, 3, 4, 6, 8]), 4)) for _ in range(k)]
+    mode = "raw" if rng.random() < 0.65 else "modeling"
+    ops = []
+    if mode == "raw":
+        # every covariance parameter exists from the start; the block structure decides which are used
+        part0 = [[i] for i in range(k)] if rng.random() < 0.6 else _partition(rng, k)
+        vals0 = _cov_values(rng, k, sd, rng.choice(["mild", "strong", "over", "any"]))
+        for _ in range(rng.randint(2, 5)):
+            r = rng.random()
+            if r < 0.45:
+                ops.append(["rvs", _partition(rng, k)])
+            elif r < 0.75:
+                ops.append(["params", _cov_values(rng, k, sd, rng.choice(["mild", "strong", "over", "any"]))])
+            elif r < 0.9:
+                ops.append(["both", _partition(rng, k), _cov_values(rng, k, sd, rng.choice(["mild", "strong", "any"]))])
+            else:
+                ops.append(["neither"])
+    else:
+        part0 = [[i] for i in range(k)]
+        vals0 = {}
+        for _ in range(rng.randint(2, 5)):
+            r = rng.random()
+            if r < 0.4:
+                sel = None if rng.random() < 0.4 else sorted(rng.sample(range(k), rng.randint(2, k)))
+                ie = None
+                if rng.random() < 0.5:
+                    ie = [[rng.randint(-9, 9) for _ in range(k)] for _ in range(rng.randint(3, 6))]
+                ops.append(["cjd", sel, ie])
+            elif r < 0.55:
+                ops.append(["sjd", None if rng.random() < 0.4 else sorted(rng.sample(range(k), rng.randint(1, k)))])
+            elif r < 0.8:
+                ops.append(["setcorr", str(Fraction(rng.choice([-15, -12, -4, 4, 12, 15, 17, 18]), 16)), rng.random() < 0.5])
+            elif r < 0.9:
+                ops.append(["remove_iiv", rng.randrange(k)])
+            else:
+                ops.append(["add_iiv"])
+    return {"kind": "model", "k": k, "sd": sd, "part": part0, "vals": vals0, "mode": mode, "ops": ops, "seed": seed}
+
+
 def gen_cases(rng: random.Random, n: int, tier: str):
     out = []
     for _ in range(n):
         r = rng.random()
         seed = rng.randrange(1 << 30)
+        if r < 0.16:
+            out.append(gen_model_case(rng, seed))
+            continue
+        r = (r - 0.16) / 0.84
         if r < 0.6:
             dists = gen_dists(rng, shared=rng.random() < 0.15)
             out.append({"kind": "ops", "dists": dists, "ops": gen_ops(rng, dists), "seed": seed})
@@ -318,6 +391,16 @@ def corpus_cases():
          "sigma": "1/10", "eps": True, "seed": 10},
         {"kind": "ucp", "blocks": [], "thetas": [["3/2", "0", None]], "sigma": "1/10", "eps": True, "seed": 11},
         {"kind": "conv", "sd": ["2", "3"], "corr": [["1", "1/3"], ["1/3", "1"]], "tri": 10, "flat": ["1", "2", "3"], "seed": 12},
+        # Model level: estimates valid for three separate etas, indefinite for the joint block (0.9/0.9/-0.9) ...
+        {"kind": "model", "k": 3, "sd": ["1", "1", "1"], "part": [[0], [1], [2]],
+         "vals": {"C_1_0": "9/10", "C_2_0": "9/10", "C_2_1": "-9/10"}, "mode": "raw",
+         "ops": [["rvs", [[0, 1, 2]]], ["neither"], ["rvs", [[0], [1, 2]]]], "seed": 14},
+        # ... and a covariance of 1.1 with unit variances; then valid values must stay as they are
+        {"kind": "model", "k": 2, "sd": ["1", "1"], "part": [[0], [1]], "vals": {"C_1_0": "11/10"}, "mode": "raw",
+         "ops": [["rvs", [[0, 1]]], ["params", {"C_1_0": "1/4"}], ["both", [[0], [1]], {"C_1_0": "3"}], ["rvs", [[0, 1]]]], "seed": 15},
+        {"kind": "model", "k": 3, "sd": ["1", "3/2", "2"], "part": [[0], [1], [2]], "vals": {}, "mode": "modeling",
+         "ops": [["cjd", None, [[1, 2, 5], [2, 4, 4], [3, 6, 3], [4, 9, 1]]], ["setcorr", "15/16", True], ["sjd", [1]],
+                 ["remove_iiv", 0], ["add_iiv"], ["cjd", None, None]], "seed": 16},
         {"kind": "conv", "sd": ["2", "3"], "corr": [["1", "0"], ["0", "1"]], "tri": 3, "flat": ["1", "2", "3", "4", "5", "6"], "seed": 13},
     ]
 
@@ -335,6 +418,13 @@ def shrink(case):
             if len(ds) > 1:
                 c = dict(case)
                 c["dists"] = ds[:i] + ds[i + 1:]
+                yield c
+    elif case["kind"] == "model":
+        ops = case["ops"]
+        for i in range(len(ops)):
+            if len(ops) > 1:
+                c = dict(case)
+                c["ops"] = ops[:i] + ops[i + 1:]
                 yield c
     elif case["kind"] == "ucp":
         for i in range(len(case["blocks"])):
@@ -359,8 +449,9 @@ def worker_init():
     import pharmpy.internals.math as pmath  # noqa
     import pharmpy.modeling as modeling  # noqa
     from pharmpy.basic import Expr, Matrix  # noqa
-    from pharmpy.model import (JointNormalDistribution, Model, NormalDistribution, Parameter,  # noqa
-                               Parameters, RandomVariables)
+    global Assignment, Statements, ExecutionSteps, EstimationStep
+    from pharmpy.model import (Assignment, EstimationStep, ExecutionSteps, JointNormalDistribution,  # noqa
+                               Model, NormalDistribution, Parameter, Parameters, RandomVariables, Statements)
 
 
 def to_expr(s: str):
@@ -1157,8 +1248,239 @@ def run_ucp(case, drv):
             "nontrivial": any(len(b["A"]) > 1 for b in case["blocks"])}
 
 
+PK = ["CL", "V", "KA", "Q"]
+
+
+def _model_rvs(part, k):
+    dists = []
+    for grp in part:
+        if len(grp) == 1:
+            i = grp[0]
+            dists.append(NormalDistribution.create(f"ETA{i}", "IIV", 0, Expr.symbol(f"O_{i}")))
+        else:
+            var = [[Expr.symbol(f"O_{a}") if a == b else Expr.symbol(f"C_{max(a, b)}_{min(a, b)}") for b in grp] for a in grp]
+            dists.append(JointNormalDistribution.create([f"ETA{i}" for i in grp], "IIV", [0] * len(grp), var))
+    dists.append(NormalDistribution.create("EPS1", "RUV", 0, Expr.symbol("SI")))
+    return RandomVariables.create(dists)
+
+
+def _block_matrices(rvs, inits):
+    """[(names of the lower-triangle parameters, Fraction matrix)] of every joint block at the given values;
+    None when a value is missing"""
+    out = []
+    for d in rvs:
+        if isinstance(d, JointNormalDistribution):
+            n = len(d.names)
+            A = [[None] * n for _ in range(n)]
+            nm = [[None] * n for _ in range(n)]
+            for i in range(n):
+                for j in range(n):
+                    e = sympy.sympify(d.variance[i, j])
+                    if e.is_Symbol:
+                        if e.name not in inits:
+                            return None
+                        A[i][j] = Fraction(float(inits[e.name]))
+                        nm[i][j] = e.name
+                    else:
+                        A[i][j] = Fraction(int(e.p), int(e.q)) if e.is_Rational else Fraction(float(e))
+            out.append((d.names, nm, A))
+    return out
+
+
+def check_model_valid(model, mon, label):
+    """every joint block of the model at model.parameters.inits is PSD (exact LDL^T, tol 1e-9*max(1,max|A|))"""
+    blocks = _block_matrices(model.random_variables, model.parameters.inits)
+    if blocks is None:
+        mon.append(M("model-missing-parameter", f"{label}: a covariance parameter of the model has no initial estimate"))
+        return
+    for names, _, A in blocks:
+        n = len(A)
+        scale = max(1, max(abs(x) for row in A for x in row))
+        sym = [[(A[i][j] + A[j][i]) / 2 for j in range(n)] for i in range(n)]
+        if not exact_psd(plus_tol(sym, Fraction(1, 10 ** 9) * scale)):
+            mon.append(M("model-estimates-not-psd", f"{label}: block {list(names)} at the initial estimates "
+                         f"{[[float(x) for x in row] for row in A]} is not positive semidefinite"))
+            return
+
+
+def _replace_step(model, label, new_params, new_rvs, drv, k, mon, tags):
+    """model.replace(parameters=?, random_variables=?) with K on the decision and the three monitors"""
+    cand_params = new_params if new_params is not None else model.parameters
+    cand_rvs = new_rvs if new_rvs is not None else model.random_variables
+    cand = dict(cand_params.inits)
+    kwargs = {}
+    if new_params is not None:
+        kwargs["parameters"] = new_params
+    if new_rvs is not None:
+        kwargs["random_variables"] = new_rvs
+    blocks = _block_matrices(cand_rvs, cand)
+    with warnings.catch_warnings():
+        warnings.simplefilter("ignore")
+        code_valid = bool(cand_rvs.validate_parameters(cand))
+        new = model.replace(**kwargs)
+    got = dict(new.parameters.inits)
+    decision = "keep" if all(float(got[n]) == float(cand[n]) for n in cand) and set(got) == set(cand) else "repair"
+    tags.append(f"model:{'+'.join(sorted(kwargs)) or 'neither'}:{'valid' if code_valid else 'invalid'}")
+    if drv is not None:
+        m = drv.ask(["replace", "true" if new_params is not None else "false", "true" if new_rvs is not None else "false",
+                     "true" if code_valid else "false"])
+        if m != decision:
+            k.append(f"{label}: replace({', '.join(sorted(kwargs))}) with validate_parameters={code_valid}: model says "
+                     f"{m}, the code {'kept' if decision == 'keep' else 'changed'} the estimates")
+    check_model_valid(new, mon, label)
+    all_well = True
+    clearly_bad = []
+    for names, nm, A in blocks:
+        n = len(A)
+        scale = max(1, max(abs(x) for row in A for x in row))
+        if not exact_psd(plus_tol(A, -Fraction(1, 10 ** 10) * scale)):
+            all_well = False
+        if not exact_psd(plus_tol(A, Fraction(1, 10 ** 9) * scale)):
+            clearly_bad.append((names, nm, A))
+    if all_well and decision != "keep":
+        ch = {n: (cand[n], got.get(n)) for n in cand if got.get(n) != cand[n]}
+        mon.append(M("model-alters-valid-estimates", f"{label}: every block is positive definite at the given estimates "
+                     f"but replace changed {ch}"))
+    if clearly_bad:
+        touched = set()
+        for names, nm, A in clearly_bad:
+            n = len(A)
+            with warnings.catch_warnings():
+                warnings.simplefilter("ignore")
+                B = pmath.nearest_positive_semidefinite(np.array([[float(x) for x in row] for row in A]))
+            for i in range(n):
+                for j in range(i + 1):
+                    if nm[i][j] is None:
+                        continue
+                    touched.add(nm[i][j])
+                    if not close(float(got[nm[i][j]]), float(B[i, j]), rel=1e-12, abs_=1e-15):
+                        mon.append(M("model-replacement-not-nearest", f"{label}: block {list(names)} is not PSD at the given "
+                                     f"estimates; {nm[i][j]}={got[nm[i][j]]} afterwards, nearest_positive_semidefinite gives {B[i, j]}"))
+                        break
+                else:
+                    continue
+                break
+        # parameters of no joint block at all are never changed
+        in_blocks = {x for _, nm, _ in blocks for row in nm for x in row if x is not None}
+        for n_, v in cand.items():
+            if n_ not in in_blocks and got.get(n_) != v:
+                mon.append(M("model-repair-frame", f"{label}: {n_} is in no joint block but changed {v} -> {got.get(n_)}"))
+                break
+    return new
+
+
+def run_model(case, drv):
+    k, mon, tags = [], [], []
+    kk = case["k"]
+    sd = [Fraction(x) for x in case["sd"]]
+    S_ = Expr.symbol
+    params = [Parameter.create(f"TH_{PK[i]}", float(i + 1), lower=0) for i in range(kk)]
+    params += [Parameter.create(f"O_{i}", float(sd[i] * sd[i])) for i in range(kk)]
+    if case["mode"] == "raw":
+        for i in range(kk):
+            for j in range(i):
+                params.append(Parameter.create(f"C_{i}_{j}", float(Fraction(case["vals"].get(f"C_{i}_{j}", "0")))))
+    params.append(Parameter.create("SI", 0.25))
+    sts = [Assignment.create(PK[i], S_(f"TH_{PK[i]}") * S_(f"ETA{i}").exp()) for i in range(kk)]
+    y = S_(PK[0])
+    for i in range(1, kk):
+        y = y + S_(PK[i])
+    sts.append(Assignment.create("Y", y + S_("EPS1")))
+    cand_params = Parameters.create(params)
+    cand_rvs = _model_rvs(case["part"], kk)
+    with warnings.catch_warnings():
+        warnings.simplefilter("ignore")
+        code_valid = bool(cand_rvs.validate_parameters(cand_params.inits))
+        model = Model.create(name="m", parameters=cand_params, random_variables=cand_rvs, statements=Statements(sts),
+                             execution_steps=ExecutionSteps.create([EstimationStep.create("FOCE")]))
+    tags += [f"model:k={kk}", f"model:{case['mode']}", f"model:create:{'valid' if code_valid else 'invalid'}"]
+    if drv is not None:
+        m = drv.ask(["mcreate", "true" if code_valid else "false"])
+        dec = "keep" if model.parameters.inits == cand_params.inits else "repair"
+        if m != dec:
+            k.append(f"Model.create with validate_parameters={code_valid}: model says {m}, code {dec}")
+    check_model_valid(model, mon, "Model.create")
+    structure_changed = False
+    for n_op, op in enumerate(case["ops"]):
+        label = f"step {n_op} {op[0]}"
+        before = blocks_of(model.random_variables)
+        tags.append(f"mop:{op[0]}")
+        if op[0] in ("rvs", "params", "both", "neither"):
+            new_rvs = _model_rvs(op[1], kk) if op[0] in ("rvs", "both") else None
+            vals = op[1] if op[0] == "params" else (op[2] if op[0] == "both" else None)
+            new_params = None
+            if vals is not None:
+                new_params = model.parameters.set_initial_estimates({n_: float(Fraction(v)) for n_, v in vals.items()})
+            model = _replace_step(model, label, new_params, new_rvs, drv, k, mon, tags)
+        elif op[0] == "setcorr":
+            # set every covariance parameter of the present joint blocks to c*sd_i*sd_j (alternating sign on request)
+            inits = model.parameters.inits
+            upd = {}
+            for d in model.random_variables:
+                if isinstance(d, JointNormalDistribution) and d.level == "IIV":
+                    n = len(d.names)
+                    for i in range(n):
+                        for j in range(i):
+                            e = sympy.sympify(d.variance[i, j])
+                            vi, vj = sympy.sympify(d.variance[i, i]), sympy.sympify(d.variance[j, j])
+                            if e.is_Symbol and vi.is_Symbol and vj.is_Symbol:
+                                sgn = -1 if (op[2] and (i + j) % 2 == 0) else 1
+                                upd[e.name] = sgn * float(Fraction(op[1])) * math.sqrt(inits[vi.name] * inits[vj.name])
+            if not upd:
+                tags.append("mop:setcorr-no-block")
+                continue
+            model = _replace_step(model, label, model.parameters.set_initial_estimates(upd), None, drv, k, mon, tags)
+        else:
+            etas = [n_ for n_ in model.random_variables.etas.names]
+            try:
+                with warnings.catch_warnings():
+                    warnings.simplefilter("ignore")
+                    if op[0] == "cjd":
+                        sel = None if op[1] is None else [f"ETA{i}" for i in op[1] if f"ETA{i}" in etas]
+                        if (sel is None and len(model.random_variables.iiv.names) < 2) or (sel is not None and len(sel) < 2):
+                            tags.append("mop:cjd-skipped")
+                            continue
+                        ie = None
+                        if op[2] is not None:
+                            ie = pd.DataFrame({f"ETA{i}": [float(row[i]) for row in op[2]] for i in range(kk)})
+                        model = modeling.create_joint_distribution(model, sel, individual_estimates=ie)
+                    elif op[0] == "sjd":
+                        sel = None if op[1] is None else [f"ETA{i}" for i in op[1] if f"ETA{i}" in etas]
+                        if sel is not None and not sel:
+                            continue
+                        model = modeling.split_joint_distribution(model, sel)
+                    elif op[0] == "remove_iiv":
+                        nm_ = f"ETA{op[1]}"
+                        if nm_ not in etas or len(etas) < 2:
+                            tags.append("mop:remove_iiv-skipped")
+                            continue
+                        model = modeling.remove_iiv(model, [nm_])
+                    elif op[0] == "add_iiv":
+                        used = {str(x) for s_ in model.statements for x in s_.rhs_symbols}
+                        free = [PK[i] for i in range(kk) if not any(str(e) in {str(x) for x in model.statements.find_assignment(PK[i]).rhs_symbols} for e in etas)]
+                        if not free:
+                            tags.append("mop:add_iiv-skipped")
+                            continue
+                        model = modeling.add_iiv(model, [free[0]], "exp")
+            except Exception as e:
+                if op[0] == "cjd" and isinstance(e, ValueError) and "must be unique" in str(e):
+                    # the covariance names are built from param_names in the order of the `rvs` argument while join
+                    # orders the block as the collection does
+                    mon.append(M("cjd-rvs-order-name-collision", f"{label}: create_joint_distribution({op[1]}) on blocks "
+                                 f"{before} raised ValueError: {e}"))
+                else:
+                    mon.append(M("internal-error", f"{label}: {op} raised {type(e).__name__}: {e}"))
+                continue
+            check_model_valid(model, mon, label)
+        if blocks_of(model.random_variables) != before:
+            structure_changed = True
+    return {"k": k, "mon": _dedupe(mon), "tags": tags, "nontrivial": structure_changed}
+
+
 def run_case(case, drv):
     kind = case["kind"]
+    if kind == "model":
+        return run_model(case, drv)
     if kind == "ops":
         return run_ops(case, drv)
     if kind == "psd":
